@@ -96,7 +96,7 @@ func runC16(c *Ctx) {
 	}
 	// compressed-timestamp records before any reference (the logger warns here)
 	for i := 0; i < c.pick(10, 60); i++ {
-		s := c12Stream(rng, 0)
+		s := c12Stream(rng, i%2) // compressed headers, and local times around references of every kind
 		b := s.Bytes()
 		addGroup(b, plain, "timestamps")
 	}
